@@ -12,6 +12,7 @@ import (
 	"fmt"
 	"os"
 	"strconv"
+	"sync"
 	"testing"
 	"time"
 )
@@ -341,4 +342,234 @@ func Equal(a, b []byte) bool {
 		}
 	}
 	return same
+}
+
+// ---------------------------------------------------------------- scheduler
+//
+// A cooperative scheduler for the concurrency harnesses.  The scheduling
+// logic below is ordinary Go and is interpreted by the engine exactly as it
+// runs natively; only spawn/switchTo/exitTo (baton passing between
+// goroutines) and the hb* hooks (happens-before edges for the engine's race
+// detector) are primitives.  The library's synchronisation sites are
+// rewritten (checked source substitution, see harness/@sched/patch.json) to
+// call MuLock/MuUnlock/ChanWait/ChanClose, which are scheduling points while
+// a scheduler is active and plain operations otherwise.
+
+type gstate struct {
+	done    bool
+	waitMu  *sync.Mutex
+	waitCh  chan struct{}
+	waitAll bool
+}
+
+type scheduler struct {
+	gs     []*gstate
+	cur    int
+	locked map[*sync.Mutex]bool
+	closed map[chan struct{}]bool
+	steps  int
+}
+
+var sched *scheduler
+
+// native baton passing
+var resume []chan struct{}
+
+func spawn(id int, f func()) {
+	for len(resume) <= id {
+		resume = append(resume, make(chan struct{}))
+	}
+	go func() {
+		<-resume[id]
+		defer func() {
+			// a failure in a goroutine is handed to goroutine 0, which
+			// re-raises it where the replay driver can see it
+			if r := recover(); r != nil {
+				pendingPanic = r
+				resume[0] <- struct{}{}
+			}
+		}()
+		f()
+	}()
+}
+
+var pendingPanic any
+
+func switchTo(from, to int) {
+	for len(resume) <= max(from, to) {
+		resume = append(resume, make(chan struct{}))
+	}
+	resume[to] <- struct{}{}
+	<-resume[from]
+	if from == 0 && pendingPanic != nil {
+		r := pendingPanic
+		pendingPanic = nil
+		panic(r)
+	}
+}
+
+func exitTo(to int) { resume[to] <- struct{}{} }
+
+func hbRelease(key any) {}
+func hbAcquire(key any) {}
+func hbFork(child int)  {}
+func schedReset()       {}
+
+// StartSched begins a scheduled section; the caller is goroutine 0.
+func StartSched() {
+	resume = nil
+	pendingPanic = nil
+	schedReset()
+	sched = &scheduler{gs: []*gstate{{}}, locked: map[*sync.Mutex]bool{}, closed: map[chan struct{}]bool{}}
+}
+
+// Go starts f as a new goroutine under the scheduler.
+func Go(f func()) {
+	s := sched
+	id := len(s.gs)
+	s.gs = append(s.gs, &gstate{})
+	hbFork(id)
+	spawn(id, func() {
+		f()
+		hbRelease(id)
+		s.gs[id].done = true
+		s.pick(true)
+	})
+	s.pick(false)
+}
+
+func (s *scheduler) enabled() []int {
+	var en []int
+	for i, g := range s.gs {
+		switch {
+		case g.done:
+		case g.waitMu != nil && s.locked[g.waitMu]:
+		case g.waitCh != nil && !s.closed[g.waitCh]:
+		case g.waitAll && !s.othersDone(i):
+		default:
+			en = append(en, i)
+		}
+	}
+	return en
+}
+
+func (s *scheduler) othersDone(me int) bool {
+	for i, g := range s.gs {
+		if i != me && !g.done {
+			return false
+		}
+	}
+	return true
+}
+
+// pick chooses the goroutine that runs next (a solver-decided choice among
+// the enabled ones) and passes the baton.
+func (s *scheduler) pick(exiting bool) {
+	s.steps++
+	en := s.enabled()
+	if len(en) == 0 {
+		Assert(false, "no deadlock")
+		panic("deadlock")
+	}
+	k := 0
+	if len(en) > 1 {
+		k = Choice("sched", len(en))
+	}
+	next := en[k]
+	prev := s.cur
+	if next == prev && !exiting {
+		return
+	}
+	s.cur = next
+	if exiting {
+		exitTo(next)
+	} else {
+		switchTo(prev, next)
+	}
+}
+
+// MuLock is m.Lock() as a scheduling point.
+func MuLock(m *sync.Mutex) {
+	s := sched
+	if s == nil {
+		m.Lock()
+		return
+	}
+	s.pick(false)
+	for s.locked[m] {
+		g := s.gs[s.cur]
+		g.waitMu = m
+		s.pick(false)
+		g.waitMu = nil
+	}
+	s.locked[m] = true
+	hbAcquire(m)
+}
+
+// MuUnlock is m.Unlock() as a scheduling point.
+func MuUnlock(m *sync.Mutex) {
+	s := sched
+	if s == nil {
+		m.Unlock()
+		return
+	}
+	Assert(s.locked[m], "unlock of a locked mutex")
+	hbRelease(m)
+	delete(s.locked, m)
+	// no scheduling point here: a switch after an unlock is equivalent to a
+	// switch before this goroutine's next acquire (the operations in between
+	// are not synchronisation operations; races among them are found by the
+	// happens-before detector whatever the interleaving)
+}
+
+// ChanWait is <-c (for channels that are only ever closed).
+func ChanWait(c chan struct{}) {
+	s := sched
+	if s == nil {
+		<-c
+		return
+	}
+	s.pick(false)
+	if !s.closed[c] {
+		g := s.gs[s.cur]
+		g.waitCh = c
+		s.pick(false)
+		g.waitCh = nil
+	}
+	hbAcquire(c)
+}
+
+// ChanClose is close(c).
+func ChanClose(c chan struct{}) {
+	s := sched
+	if s == nil {
+		close(c)
+		return
+	}
+	hbRelease(c)
+	s.closed[c] = true
+	close(c)
+}
+
+// Yield is an explicit scheduling point for harness code.
+func Yield() {
+	if sched != nil {
+		sched.pick(false)
+	}
+}
+
+// WaitAll blocks goroutine 0 until every other goroutine has finished and
+// ends the scheduled section.
+func WaitAll() {
+	s := sched
+	g := s.gs[0]
+	g.waitAll = true
+	for !s.othersDone(0) {
+		s.pick(false)
+	}
+	g.waitAll = false
+	for id := 1; id < len(s.gs); id++ {
+		hbAcquire(id)
+	}
+	sched = nil
 }
